@@ -8,6 +8,7 @@ U(n, w) == [k |-> "u", n |-> n, w |-> w]
 Raw(n, w) == [k |-> "raw", n |-> n, w |-> w]
 Bcd(n) == [k |-> "bcd", n |-> n, w |-> 6]
 LStr(n, ln) == [k |-> "lstr", n |-> n, ln |-> ln, lw |-> 1]
+LStr1(n, ln) == [k |-> "lstr", n |-> n, ln |-> ln, lw |-> 1, min |-> 1]     \* at least one byte (a file name)
 Rest(n) == [k |-> "rest", n |-> n]
 UList(n, cn, cw, w) == [k |-> "ulist", n |-> n, cn |-> cn, cw |-> cw, w |-> w]
 OptUList(n, cn, cw, w) == [k |-> "optulist", n |-> n, cn |-> cn, cw |-> cw, w |-> w]
@@ -32,7 +33,7 @@ Sign(d) == <<FStr("P9208AlarmSign.TerminalID", IdLen(d)), Bcd("P9208AlarmSign.Ti
              U("P9208AlarmSign.AttachNumber", 1), Raw("P9208AlarmSign.AlarmReserve", SignLen(d) - IdLen(d) - 8)>>
 AlarmAttach(d) == (IF d = 2 THEN <<>> ELSE <<FStr("TerminalID", IdLen(d))>>) \o Sign(d)
                   \o <<FStr("AlarmID", 32), U("InfoType", 1),
-                       List("T0x1210AlarmItemList", "AttachCount", 1, <<LStr("FileName", "FileNameLen"), U("FileSize", 4)>>)>>
+                       List("T0x1210AlarmItemList", "AttachCount", 1, <<LStr1("FileName", "FileNameLen"), U("FileSize", 4)>>)>>
 AttachUpload(d) == <<LStr("ServerAddr", "ServerIPLen"), U("TcpPort", 2), U("UdpPort", 2)>> \o Sign(d) \o <<FStr("AlarmID", 32), Rest("Reserve")>>
 
 LayoutOf == [
@@ -95,6 +96,11 @@ ByteIds == {132, 144, 145, 146, 148}
 ParamWidth(id) == IF id \in DwordIds THEN 4 ELSE IF id \in WordIds THEN 2 ELSE IF id \in ByteIds THEN 1
                   ELSE IF id = 50 THEN 4 ELSE IF id = 272 THEN 8 ELSE 0          \* 0x0032 BYTE[4], 0x0110 BYTE[8]
 KnownIds == DwordIds \cup WordIds \cup StringIds \cup ByteIds \cup {50, 272}
+\* Deviation of the implementation (known finding, pinned by TestParse / TestTerminalParamDetails): the standard's DWORD parameters
+\* 0x0018, 0x0019 (server TCP / UDP port) and 0x0021 (position reporting plan) have fields of their own, and Encode writes those
+\* fields, but Parse files the three ids with the unknown ones.  The table above is the one Parse implements: here they are
+\* "not known", i.e. kept verbatim, which round-trips; a value that uses their own fields does not (probed by the bridge).
+FieldButVerbatim == {24, 25, 33}
 \* ps : set of [id, b].  Encoding order of the implementation: table ids ascending, then the others ascending.
 ParamBytes(p) == UBytes(p.id, 4) \o <<Len(p.b)>> \o p.b
 Ordered(ps) == LET known == {p \in ps : p.id \in KnownIds} other == ps \ known
